@@ -19,24 +19,24 @@ func main() {
 	if err != nil {
 		panic(err)
 	}
-	frags := h.ConstraintFragments()
-	for _, f := range append([]string{"ok-refs", "ok-mand"}, h.InvalidFragOrder...) {
-		for _, rep := range []bool{false, true} {
-			w, err := h.NewWorld(u, cc, nil, h.WorldOpts{Fragments: frags})
-			if err != nil {
-				panic(err)
-			}
-			op := h.Op{Intents: []h.IntentSpec{{Owner: "A", Prio: 10, Frag: f}}}
-			if rep {
-				op = h.Op{Replace: &h.IntentSpec{Owner: "replace", Frag: f}}
-			}
-			out := w.Apply(op)
-			errs := map[string][]string{}
-			for n, ir := range out.Rsp.GetIntents() {
-				errs[n] = ir.GetErrors()
-			}
-			fmt.Printf("%-16s replace=%-5v rejected=%-5v err=%v conv=%v intentErrs=%v\n", f, rep, out.Rejected(), out.Err, out.ConvErr, errs)
-			w.Close()
+	frags := h.ChoiceFragments()
+	run := func(ops ...h.Op) {
+		w, err := h.NewWorld(u, cc, nil, h.WorldOpts{Fragments: frags})
+		if err != nil {
+			panic(err)
 		}
+		defer w.Close()
+		for _, op := range ops {
+			out := w.Apply(op)
+			c := w.Dev.Calls[len(w.Dev.Calls)-1]
+			fmt.Println(op, "rej:", out.Rejected(), "err:", out.Err, "upd:", c.Updates, "del:", c.Deletes)
+		}
+		fmt.Println("  device:", w.Dev.Snapshot())
 	}
+	S := func(o string, p int32, f string) h.Op { return h.Op{Intents: []h.IntentSpec{{Owner: o, Prio: p, Frag: f}}} }
+	run(S("A", 25, "cbx"), S("B", 20, "ca1"))
+	run(S("A", 25, "ie"), S("B", 20, "il"))
+	run(S("A", 25, "cnon"), S("C", 30, "cb1"))
+	run(S("A", 25, "cnon"), S("B", 20, "cb1"))
+	run(S("C", 30, "ca2"), S("A", 10, "cby"))
 }
